@@ -9,9 +9,9 @@ from .common import arg_term
 
 ITER_FNS = {"iter", "keys", "values", "into_iter", "drain", "iter_mut", "values_mut", "into_keys", "into_values",
             "par_iter", "into_par_iter", "par_iter_mut", "par_drain"}
-ADAPTERS = {"map", "filter", "filter_map", "enumerate", "cloned", "copied", "into_iter", "iter", "rev", "zip", "chain",
+ADAPTERS = frozenset({"map", "filter", "filter_map", "enumerate", "cloned", "copied", "into_iter", "iter", "rev", "zip", "chain",
             "skip", "take", "peekable", "flat_map", "flatten", "inspect", "by_ref", "map_while", "take_while",
-            "skip_while", "step_by", "fuse", "into_par_iter", "par_iter", "as_ref", "deref", "unwrap", "expect", "branch"}
+            "skip_while", "step_by", "fuse", "into_par_iter", "par_iter", "as_ref", "deref", "unwrap", "expect", "branch"})
 COMMUTATIVE = {"any", "all", "count", "sum", "max", "min", "max_by", "min_by", "max_by_key", "min_by_key", "product", "len", "is_empty"}
 FIRST_MATCH = {"find", "position", "find_map", "next", "first", "last", "nth", "find_any", "find_first", "rposition", "min_by_key_first"}
 CONSUMERS = COMMUTATIVE | FIRST_MATCH | {"collect", "for_each", "fold", "reduce", "extend", "from_iter", "try_for_each", "unzip", "partition", "collect_into_vec"}
@@ -88,7 +88,7 @@ def _inner_is_iter(t):
         return False
     while a[0] in ("ref", "deref", "var"):
         a = a[3] if a[0] == "var" else a[1]
-    return a[0] == "call" and (callee_name(a) in ITER_FNS or callee_name(a) in ADAPTERS)
+    return a[0] == "call" and (callee_name(a) in ITER_FNS or callee_name(a) in (ADAPTERS - {"deref", "as_ref", "unwrap", "expect", "branch"}))
 
 
 def outer_mutations(facts, body, blocks, cfg):
